@@ -137,10 +137,10 @@ at most one cut above it and none of the RFC 4592 gaps applies. -/
 theorem node_eq {z : Zone} {o n : LName} {t : Nat} (wf : WF z o) (hn : o <:+ n)
     (hnest : nestedCutAt z o n t = false) (hgap : wildcardGapAt z o n t = false) :
     match resolve z o n t with
-    | .referral ns => innerLookup z n t = some ns ∧ ns.type = T_NS ∧ cuts z o n t ≠ []
+    | .referral ns => innerLookup z n t = some ns ∧ ns.type = T_NS ∧ ns.name ≠ o ∧ cuts z o n t ≠ []
     | .cname rr tg => innerLookup z n t = some rr ∧ rr.type = T_CNAME ∧ t ≠ T_CNAME ∧
         rr.rdatas.head?.bind (·.target) = some tg
-    | .data rr => innerLookup z n t = some rr ∧ rr.type = t
+    | .data rr => innerLookup z n t = some rr ∧ rr.type = t ∧ (rr.type = T_NS → rr.name = o)
     | .noData => innerLookup z n t = none ∧ nameExists z n = true
     | .nxDomain => innerLookup z n t = none ∧ nameExists z n = false := by
   simp only [wildcardGapAt, Bool.or_eq_false_iff] at hgap
@@ -160,7 +160,8 @@ theorem node_eq {z : Zone} {o n : LName} {t : Nat} (wf : WF z o) (hn : o <:+ n)
       simp only [resolve, hcuts]
       rw [← get_eq_rrsetAt, hns]
     rw [this]
-    refine ⟨?_, (get_some hns).2.2, by simp⟩
+    have hco : c ≠ o := cut_ne_origin (z := z) (o := o) (n := n) (t := t) (by rw [hcuts]; simp)
+    refine ⟨?_, (get_some hns).2.2, by rw [(get_some hns).2.1]; exact hco, by simp⟩
     simp [innerLookup, lookupExact, hw, hns]
   | nil =>
     have hwalk : walk z n t n = none := (walk_none_iff_noCut wf t hn).2 hcuts
@@ -193,7 +194,16 @@ theorem node_eq {z : Zone} {o n : LName} {t : Nat} (wf : WF z o) (hn : o <:+ n)
           have hres : resolve z o n t = .data rr := by
             simp only [resolve, hcuts, hsrc, hc, hr, hself]
           rw [hres]
-          exact ⟨by simp [innerLookup, hle, hsc], hrt⟩
+          refine ⟨by simp [innerLookup, hle, hsc], hrt, ?_⟩
+          intro hns
+          -- an NS RRset at `n` with no cut on the way: `n` is the apex
+          apply Classical.byContradiction
+          intro hno
+          have hno' : n ≠ o := by rw [← hrn]; exact hno
+          have htn : t = T_NS := by rw [← hrt]; exact hns
+          have : cuts z o n t ≠ [] :=
+            mem_cuts_of_ns hn hno' (by rw [htn] at hr; rw [hr]; rfl) (by rw [htn]; decide)
+          exact this hcuts
         | none =>
           rw [hr] at hsc
           have hw : (innerLookupWildcard z n t).isSome = false := by
@@ -325,7 +335,13 @@ theorem node_eq {z : Zone} {o n : LName} {t : Nat} (wf : WF z o) (hn : o <:+ n)
                 .data { name := l :: rest, type := rr.type, rdatas := rr.rdatas, sigLabels := rr.sigLabels } := by
               simp only [resolve, hcuts, hsrc, hc, hr]
             rw [hres]
-            exact ⟨hil, hrt⟩
+            refine ⟨hil, hrt, ?_⟩
+            intro hns
+            -- NS at a wildcard owner is excluded by `zoneWF`
+            exfalso
+            have hrn' := wf.noWildNs rr hrz hns
+            rw [hrn] at hrn'
+            simp [isWildcardName] at hrn'
           | none =>
             rw [hr] at hsc
             cases hsc
